@@ -211,4 +211,16 @@ var plans = map[string]*plan{
 		FloorsThorough: map[string]int64{"c20.connect_cases": 27, "c20.sessions": 5500, "classes": 150},
 		Assumptions:    []string{"PINGREQ/PINGRESP barrier as in C12", "filters with empty levels are not generated here (known finding F-C06-1 covers the matcher)"},
 	},
+	"C16": {
+		Level: "fault_enumeration",
+		Rule: "teardown matrix in a synctest bubble (net.Pipe, 16 KiB rings): cause {DISCONNECT, abrupt close, keep-alive expiry in virtual time, protocol error, Server.Close} x buffer condition {idle; own outbound ring full because the subscriber stopped reading and the publisher's processor is parked in its WriteWait; publisher's inbound ring full as well; cross-blocked pair publishing to each other, both not reading} x order in which the two connections end x will present/absent x CleanSession 0/1 (160 cells). " +
+			"Oracle once every connection that had stopped reading has been ended: exactly one teardown-finished event per connection, wills seen by a witness exactly once unless the end was a DISCONNECT, a probe publish to the dead client's filter is acknowledged and reaches nobody, a clean session is gone, Server.Close returns, and a goroutine snapshot shows no frame of the library. A parked Server.Close or leftover goroutine is reported with its stack; a mutex deadlock (not durably blocked, so synctest.Wait cannot return) is caught by the process-wide deadlock watchdog. distinct = cells.",
+		Quick:          []batchSpec{{Test: "TestC16", N: 8, Timeout: 15 * m}},
+		Thorough:       []batchSpec{{Test: "TestC16", N: 16, Timeout: 30 * m}},
+		EvalStats:      []string{"c16.cells"},
+		Floors:         map[string]int64{"c16.cells": 160, "classes": 160},
+		FloorsThorough: map[string]int64{"c16.cells": 640, "classes": 160},
+		Exhaustive:     func(r *result) bool { return r.stats["c16.cells"] >= 160 },
+		Assumptions:    []string{"'bounded time' is decided at synctest quiescence (every goroutine durably blocked) plus goroutine-state inspection, not by a deadline", "read/write errors as a cause are exercised in C09 (chaos conn) and C05"},
+	},
 }
